@@ -5,6 +5,7 @@ CONSTANTS
   Cap = 2
   Faults = {"rd", "width", "wr"}
   IgnoreRowErr = FALSE
+  WPR = 1
   IgnoreHdrErr = FALSE
 INVARIANT DoneOK
 INVARIANT EveryTargetToEveryQuery
